@@ -6,5 +6,8 @@ CONSTANTS
  MaxHist = 2
  LeafCap = 2
  Variant = "found"
+ Extra <- MC_Extra
+ MaxAdds = 0
+ MaxRules = 3
 INVARIANTS FiredExactly NeverSkippedIfFires Terminates PreCheckOverApproximates
 CHECK_DEADLOCK FALSE
